@@ -548,10 +548,10 @@ _DIR = re.compile(r'^\s*//@(\w[\w-]*)\s*(.*)$')
 
 def _parse_args(rest):
     """tokens with "quoted strings" and key=value."""
-    toks = re.findall(r'"[^"]*"|\S+', rest)
+    toks = re.findall(r'"[^"]*"|`[^`]*`|\S+', rest)
     pos, kw = [], {}
     for t in toks:
-        if t.startswith('"'):
+        if t.startswith('"') or t.startswith('`'):
             pos.append(t[1:-1])
         elif '=' in t and not t.startswith('='):
             k, v = t.split('=', 1)
@@ -593,7 +593,7 @@ def build_unit(template, repo, variant='A'):
             i += 1
             continue
         if d == 'subst':
-            pending_subst.append((pos[0], pos[1]))
+            pending_subst.append((pos[0], pos[1], int(kw.get('n', 1))))
             i += 1
             continue
         if d == 'item':
@@ -720,12 +720,12 @@ def build_unit(template, repo, variant='A'):
             c = {}
             local_ren = dict(renames)
             nt = normalise(raw, c, local_ren)
-            for old_t, new_t in pending_subst:
+            for old_t, new_t, want_n in pending_subst:
                 k = nt.count(old_t)
-                if k != 1:
+                if k != want_n:
                     raise ExtractError('lost-anchor', '%s: operator text %r occurs %d times' % (name, old_t, k))
                 nt = nt.replace(old_t, new_t)
-                c['N8_operator_desugared:%s=>%s' % (old_t, new_t)] = 1
+                c['N8_operator_desugared:%s=>%s' % (old_t, new_t)] = want_n
             pending_subst = []
             if impl_ctx is not None:
                 for an, at in impl_assoc.items():
